@@ -3,7 +3,7 @@ from fractions import Fraction as Fr
 
 from engine import loader
 from engine.runner import Acc
-from engine.util import ca_for, call, chunks
+from engine.util import ca_for, call, chunks, vary_case
 from spec import cpr as C
 from spec import cprsets as S
 from spec import frames as F
@@ -81,7 +81,7 @@ def w_lats(arg):
                     me = C.me_surface(tc, k % 128, k % 2, (k * 7) % 128, i, e["yz"], e["xz"], t=k % 2)
                 else:
                     me = C.me_airborne(tc, (k * 37) % 4096, i, e["yz"], e["xz"], ss=k % 4, saf=k % 2, t=k % 2)
-                msg = F.es(me, [0x406B90, 0xFFFFFF][k % 2], ca_for(17 + k % 2, k // 2), 17 + k % 2)
+                msg = vary_case(F.es(me, [0x406B90, 0xFFFFFF][k % 2], ca_for(17 + k % 2, k // 2), 17 + k % 2), k // 3)
                 acc.out.add((surface, i, e["yz"], e["xz"]))
                 zlat, zlon = e["dlat"], e["dlon"]
                 tol = (float(zlat) / 131072, float(zlon) / 131072)
@@ -130,7 +130,7 @@ def w_corner(surface):
                                     me = C.me_surface(tc, o[0], o[1], o[2], i, yz, xz, t=t)
                                 else:
                                     me = C.me_airborne(tc, o[0], i, yz, xz, ss=o[1], saf=o[2], t=t)
-                                msg = F.es(me, 0x4840D6, ca_for(17 + k % 2, k), 17 + k % 2)
+                                msg = vary_case(F.es(me, 0x4840D6, ca_for(17 + k % 2, k), 17 + k % 2), k // 2)
                                 acc.n += 1
                                 r = call(pms.adsb.position_with_ref, msg, latr, lonr)
                                 case = {"corner": [msg, latr, lonr, surface, i, yz, xz]}
